@@ -662,7 +662,10 @@ func (es *SearchEngineState) Copy() *SearchEngineState {
 	loopStack := es.loopStack.Copy()
 	for i := 0; i < int(loopStack.Size()); i++ {
 		loopState := loopStack.Index(i)
-		loopState.variables = loopState.variables.Copy().Hashmap()
+		if loopState.name != "" {
+			// only named loops publish their per-iteration variables
+			loopState.variables = loopState.variables.Copy().Hashmap()
+		}
 	}
 	return &SearchEngineState{
 		loopStack:         loopStack,
